@@ -60,6 +60,68 @@ pub fn case_to_rp(c: &Case) -> Option<(Fam, RP)> {
     }
 }
 
+/// Packet values built through the crate's public convenience constructors (`new`, `new_success`,
+/// `new_normal`, `From` impls): their defaults are part of the public surface too.
+pub fn constructor_values(fam: Fam) -> Vec<RP> {
+    use mqtt_proto::{Pid, QoS, QosPid, TopicFilter, TopicName};
+    let pid = Pid::try_from(10).unwrap();
+    let tn = |s: &str| TopicName::try_from(s.to_string()).unwrap();
+    let tf = |s: &str| TopicFilter::try_from(s.to_string()).unwrap();
+    let cid = Arc::new("client".to_string());
+    match fam {
+        Fam::V3 => {
+            use v3::*;
+            let mut c = Connect::new(cid, 30);
+            c.last_will = Some(LastWill::new(QoS::Level1, tn("w"), Bytes::from_static(b"bye")));
+            let q = QosPid::Level2(pid);
+            assert!(q.pid() == Some(pid) && q.qos() == QoS::Level2 && QosPid::Level0.pid().is_none());
+            vec![
+                Packet::from(c),
+                Packet::from(Connack::new(true, ConnectReturnCode::Accepted)),
+                Packet::from(Publish::new(q, tn("a/b"), Bytes::from_static(b"x"))),
+                Packet::from(Subscribe::new(pid, vec![(tf("a/+"), QoS::Level1)])),
+                Packet::from(Suback::new(pid, vec![SubscribeReturnCode::from(QoS::Level0), SubscribeReturnCode::from(QoS::Level1), SubscribeReturnCode::from(QoS::Level2), SubscribeReturnCode::Failure])),
+                Packet::from(Unsubscribe::new(pid, vec![tf("#")])),
+            ]
+            .iter()
+            .map(crate::conv::v3_from_lib)
+            .collect()
+        }
+        Fam::V5 => {
+            use v5::*;
+            let mut c = Connect::new(cid, 30);
+            c.last_will = Some(LastWill::new(QoS::Level1, tn("w"), Bytes::from_static(b"bye")));
+            let up = vec![UserProperty { name: Arc::new("k".into()), value: Arc::new("v".into()) }];
+            let mut un = Unsubscribe::new(pid, vec![tf("#")]);
+            un.properties = UnsubscribeProperties::from(up);
+            vec![
+                Packet::from(c),
+                Packet::from(Connack::new(false, ConnectReasonCode::Success)),
+                Packet::from(Publish::new(QosPid::Level1(pid), tn("a/b"), Bytes::from_static(b"x"))),
+                Packet::from(Puback::new(pid, PubackReasonCode::NotAuthorized)),
+                Packet::from(Puback::new_success(pid)),
+                Packet::from(Pubrec::new(pid, PubrecReasonCode::QuotaExceeded)),
+                Packet::from(Pubrec::new_success(pid)),
+                Packet::from(Pubrel::new(pid, PubrelReasonCode::PacketIdentifierNotFound)),
+                Packet::from(Pubrel::new_success(pid)),
+                Packet::from(Pubcomp::new(pid, PubcompReasonCode::PacketIdentifierNotFound)),
+                Packet::from(Pubcomp::new_success(pid)),
+                Packet::from(Subscribe::new(pid, vec![(tf("a/+"), SubscriptionOptions::new(QoS::Level2))])),
+                Packet::from(Suback::new(pid, vec![SubscribeReasonCode::GrantedQoS1])),
+                Packet::from(un),
+                Packet::from(Unsuback::new(pid, vec![UnsubscribeReasonCode::Success])),
+                Packet::from(Disconnect::new(DisconnectReasonCode::ServerBusy)),
+                Packet::from(Disconnect::new_normal()),
+                Packet::from(Auth::new(AuthReasonCode::ReAuthentication)),
+                Packet::from(Auth::new_success()),
+            ]
+            .iter()
+            .map(crate::conv::v5_from_lib)
+            .collect()
+        }
+    }
+}
+
 /// Drive `f` over G2 (both families, sharded over workers), G1 and G3.
 pub fn for_valid<F>(ctx: &mut Ctx, sz: &Sizes, f: F)
 where
@@ -78,6 +140,9 @@ where
                 }
                 idx += 1;
             });
+            if w == 0 {
+                items.extend(constructor_values(fam));
+            }
             c.countn(&format!("g2.{}", fam.n()), items.len() as u64);
             for rp in &items {
                 let case = valid_case(fam, rp);
